@@ -418,6 +418,18 @@ def run(ctx):
     if out["problems"]:
         ctx.failure("probe:python-class-reference-inout", dict(sg_model=pm, options={}, probe="python-class-reference-inout"),
                     observed=out["problems"][0][1], note="class argument by non-const reference with the Python wrapper: " + out["problems"][0][1])
+    # third probe: a derived class whose method hides a base-class method of another signature (legal C++, accepted
+    # by Shroud): the Fortran type extension overrides the binding with a different interface
+    hm = dict(library="HideLib", language="c++", options={"wrap_python": False, "wrap_lua": False}, format={}, decls=[
+        dict(kind="raw", yaml={"decl": "class Shape1", "declarations": [{"decl": "Shape1()"}, {"decl": "int extent()"}]}),
+        dict(kind="raw", yaml={"decl": "class Circle1 : public Shape1", "declarations": [{"decl": "Circle1()"}, {"decl": "double extent(int axis)"}]})],
+        raw_header="class Shape1 { public: Shape1(); int extent(); };\n"
+                   "class Circle1 : public Shape1 { public: Circle1(); double extent(int axis); };\n")
+    out = _sg_job((0, hm, {}))
+    ctx.case(label="probe")
+    if out["problems"]:
+        ctx.failure("probe:derived-method-hides-base", dict(sg_model=hm, options={}, probe="derived-method-hides-base"),
+                    observed=out["problems"][0][1], note="derived class method hiding a base method: " + out["problems"][0][1])
     # (2) corpus
     targets = upstream.target_lists()
     base_jobs = [(nme, "fortran", None) for nme in targets["fortran"]] + [(nme, "c", None) for nme in targets["c"]]
